@@ -18,6 +18,7 @@ import PygModel.DRange
 import PygProofs.Lemmas.DRangeLemmas
 import PygProofs.Lemmas.DRangeMonth
 import PygProofs.Lemmas.DRangeBump
+import PygProofs.Lemmas.DRangeBday
 import PygProofs.Props.C09
 
 namespace Pyg.Props.C10
@@ -1205,5 +1206,210 @@ theorem period_text_c09 (ps : List (Int × Per)) (t : Int) (ht : 0 ≤ t) :
   unfold Bump.bumpStr partsText at h
   rw [Bump.lower_tenors _ hl, Bump.resolveNamed_parts, List.flatMap_map, ← numToks_text] at h
   exact (dtbump_is_c09 _ (numToks_wf ps) ps (tokParts_numToks ps) t ht).1 t' h
+
+/-! ### round i3 (review t3 §C10.2): the 'b' instance of "single period strings give the list obtained by iterating dt_bump"
+
+Every iterate-`dt_bump` theorem above carries `u ≠ .b`: the business-day branch of the code is not a loop but
+"rrule(DAILY), keep the weekdays, take every k-th".  From a WEEKDAY `t0` the two descriptions coincide — that is the
+content of `kb_eq_iter_dtbump` (the closed-form offset `bOff` of `dt_bump(·,'kb')` IS the k-th next weekday of the grid);
+from a weekend `t0` they do not, and the statement's second sentence ("for business-day bumps it lists weekdays only")
+is the one the code follows: `kb_weekend_grids_differ`. -/
+
+/-- `'kb'` (k ≥ 1) from a weekday `t0`: the list is exactly the `dt_bump(·, 'kb')` loop `t0, dt_bump(t0), …` while `≤ t1` -/
+theorem kb_eq_iter_dtbump (k : Int) (hk : 1 ≤ k) (t0 t1 : Int) (h : t0 < t1) (hwd : wdT t0 < 5) :
+    drange t0 t1 (.period [(k, .b)]) = loopBranch (dtBump [(k, .b)]) t0 t1 := by
+  rw [kb_stride k hk t0 t1 h, dtBump_b]
+  have hinc := bStep_inc k hk
+  have h1 : t1 > t0 := h
+  have h2 : ¬ bStep k t0 ≤ t0 := by have := hinc t0; omega
+  simp only [loopBranch, h1, if_true, h2, if_false]
+  have key := strideGo_weekdays k.natAbs (by omega) t1 _ t0 0 (Nat.le_refl _) hwd
+  have ek : ((k.natAbs : Nat) : Int) = k := by omega
+  rw [ek, show ((0 : Nat) : Int) = 0 from rfl, bOff_zero _ hwd, Int.mul_zero, Int.add_zero] at key
+  congr 1
+  by_cases hgt : k.natAbs > 1
+  · simp only [hgt, if_true]; exact key
+  · simp only [hgt, if_false]
+    have e1 : k.natAbs = 1 := by omega
+    rw [e1] at key
+    rw [← key]; exact (stride_one _).symm
+
+/-- `'kb'` (k ≤ -1) from a weekday `t0` down to `t1`, endpoints a whole number of days apart (the quantifier's condition
+for business-day bumps: the code anchors the daily grid at the LOWER endpoint): the `dt_bump(·, 'kb')` loop while `≥ t1` -/
+theorem kb_eq_iter_dtbump_backward (k : Int) (hk : k ≤ -1) (t0 t1 : Int) (h : t1 < t0) (hal : (t1 - t0) % DAY = 0)
+    (hwd : wdT t0 < 5) :
+    drange t0 t1 (.period [(k, .b)]) = loopBranch (dtBump [(k, .b)]) t0 t1 := by
+  rw [kb_stride_backward k hk t0 t1 h, dtBump_b]
+  have hdec := bStep_dec k hk
+  have h1 : ¬ t1 > t0 := by omega
+  have h2 : ¬ bStep k t0 ≥ t0 := by have := hdec t0; omega
+  simp only [loopBranch, h1, if_false, h, if_true, h2]
+  have hrev : ((daily t1 t0).filter fun t => wdT t < 5).reverse = (dailyDown t0 t1).filter isWd := by
+    rw [← List.filter_reverse, reverse_daily t1 t0 (by unfold DAY at *; omega)]; rfl
+  have key := strideGo_weekdays_down k.natAbs (by omega) t1 _ t0 0 (Nat.le_refl _) hwd
+  have ek : -((k.natAbs : Nat) : Int) = k := by omega
+  rw [ek, show (-((0 : Nat) : Int)) = 0 from rfl, bOff_zero _ hwd, Int.mul_zero, Int.add_zero] at key
+  rw [hrev]
+  congr 1
+  by_cases hgt : k.natAbs > 1
+  · simp only [hgt, if_true]; exact key
+  · simp only [hgt, if_false]
+    have e1 : k.natAbs = 1 := by omega
+    rw [e1] at key
+    rw [← key]; exact (stride_one _).symm
+
+/-- hence the first sentence of the statement holds for `'kb'` from a weekday: the list is `iter (dt_bump 'kb') i t0`
+at every index, starts at `t0`, is strictly increasing, inside `[t0, t1]`, and the next iterate is beyond `t1` -/
+theorem kb_forward_range (k : Int) (hk : 1 ≤ k) (t0 t1 : Int) (h : t0 < t1) (hwd : wdT t0 < 5) :
+    ∃ l, drange t0 t1 (.period [(k, .b)]) = .ok l ∧ IsRangeUp (dtBump [(k, .b)]) t0 t1 l ∧ l.head? = some t0 ∧
+      l.Pairwise (· < ·) ∧ ∀ x ∈ l, t0 ≤ x ∧ x ≤ t1 := by
+  rw [kb_eq_iter_dtbump k hk t0 t1 h hwd]
+  exact loop_forward _ (by rw [dtBump_b]; exact bStep_inc k hk) t0 t1 h
+
+theorem kb_backward_range (k : Int) (hk : k ≤ -1) (t0 t1 : Int) (h : t1 < t0) (hal : (t1 - t0) % DAY = 0)
+    (hwd : wdT t0 < 5) :
+    ∃ l, drange t0 t1 (.period [(k, .b)]) = .ok l ∧ IsRangeDown (dtBump [(k, .b)]) t0 t1 l ∧ l.head? = some t0 ∧
+      l.Pairwise (· > ·) ∧ ∀ x ∈ l, t1 ≤ x ∧ x ≤ t0 := by
+  rw [kb_eq_iter_dtbump_backward k hk t0 t1 h hal hwd]
+  exact loop_backward _ (by rw [dtBump_b]; exact bStep_dec k hk) t0 t1 h
+
+/-- the hypotheses are satisfiable: Mon 2000-01-03 → Fri 2000-01-14, `'2b'`; and back, `'-2b'` -/
+example : (1 : Int) ≤ 2 ∧ (63082281600000000 + 2 * DAY : Int) < 63082281600000000 + 13 * DAY ∧
+    wdT (63082281600000000 + 2 * DAY) < 5 := by decide
+example : drange (63082281600000000 + 2 * DAY) (63082281600000000 + 13 * DAY) (.period [(2, .b)])
+    = .ok [63082281600000000 + 2 * DAY, 63082281600000000 + 4 * DAY, 63082281600000000 + 6 * DAY,
+           63082281600000000 + 10 * DAY, 63082281600000000 + 12 * DAY] := by rfl
+
+/-- **`wdT t0 < 5` is necessary** (review t3 §C10 2.1): from Saturday 2020-01-11 down to Wednesday 2020-01-08 with `'-2b'`
+the code lists "every 2nd weekday in reverse" = [Fri 10, Wed 08], iterating `dt_bump(·,'-2b')` gives [Sat 11, Thu 09]:
+no common element.  The statement's sentence on business-day bumps ("lists weekdays only") is the one that applies. -/
+theorem kb_weekend_grids_differ :
+    wdT (737434 * DAY) = 5 ∧
+    drange (737434 * DAY) (737431 * DAY) (.period [(-2, .b)]) = .ok [737433 * DAY, 737431 * DAY] ∧
+    loopBranch (dtBump [(-2, .b)]) (737434 * DAY) (737431 * DAY) = .ok [737434 * DAY, 737432 * DAY] := by
+  refine ⟨by decide, by rfl, by rfl⟩
+
+/-- forward the difference is the head only: `'2b'` from Saturday 2000-01-01: [Mon 3, Wed 5, Fri 7] against [Sat 1, Wed 5, Fri 7] -/
+example : drange 63082281600000000 (63082281600000000 + 6 * DAY) (.period [(2, .b)])
+      = .ok [63082281600000000 + 2 * DAY, 63082281600000000 + 4 * DAY, 63082281600000000 + 6 * DAY] ∧
+    loopBranch (dtBump [(2, .b)]) 63082281600000000 (63082281600000000 + 6 * DAY)
+      = .ok [63082281600000000, 63082281600000000 + 4 * DAY, 63082281600000000 + 6 * DAY] := ⟨by rfl, by rfl⟩
+
+/-! ### round i3 (review t3 §C10 improvements 3-5) -/
+
+/-- `timedelta(n)` and `'nd'` give identical lists for ANY endpoints (no whole-day condition: intraday endpoints are inside the
+quantifier for these two spellings; `int_td_str_agree` needs `hal` only for the integer spelling) -/
+theorem td_str_agree_any (t0 t1 n : Int) (hn : n ≠ 0) :
+    drange t0 t1 (.td (DAY * n)) = drange t0 t1 (.period [(n, .d)]) := by
+  by_cases hne : t0 = t1
+  · subst hne; simp [singleton]
+  · have hstep : dtBump [(n, Per.d)] = (· + DAY * n) := by funext t; rfl
+    have hr : rruleStep n Per.d = (· + DAY * n) := by funext t; rfl
+    simp only [drange, hne, if_false]
+    by_cases hpos : 0 < n
+    · have hn' : n > 0 := hpos
+      have hq : ¬ (Per.d = Per.q) := by decide
+      have hb : ¬ (Per.d = Per.b) := by decide
+      simp only [hb, false_or, hn', if_true, hq, if_false, Int.mul_one, hr]
+      by_cases hlt : t0 < t1
+      · have hd := tdDays_nonneg (t1 - t0) (by omega)
+        have : ¬ tdDays (t1 - t0) * n < 0 := by have := Int.mul_nonneg hd (show (0 : Int) ≤ n by omega); omega
+        have h1 : t1 > t0 := hlt
+        have h2 : ¬ (t0 + DAY * n ≤ t0) := by unfold DAY; omega
+        simp only [this, hn, or_self, if_false, loopBranch, h1, if_true, h2]
+      · have hd := tdDays_neg (t1 - t0) (by omega)
+        have : tdDays (t1 - t0) * n < 0 := Int.mul_neg_of_neg_of_pos hd hpos
+        have h1 : ¬ t1 > t0 := by omega
+        have h3 : t1 < t0 := by omega
+        have h2 : t0 + DAY * n ≥ t0 := by unfold DAY; omega
+        simp only [this, true_or, if_true, loopBranch, h1, if_false, h3, h2]
+    · have hn' : ¬ n > 0 := by omega
+      have hb : ¬ (Per.d = Per.b) := by decide
+      simp only [hb, false_or, hn', if_false, hstep]
+      exact (loopBranchC_eq _ (Or.inr fun t => by show t + DAY * n < t; unfold DAY; omega) t0 t1).symm
+
+/-- intraday endpoints, not a whole number of days apart: 2000-01-01 00:00 → 2000-01-03 12:00 -/
+example : drange 63082281600000000 (63082281600000000 + 2 * DAY + 12 * HOUR) (.td (DAY * 1))
+    = drange 63082281600000000 (63082281600000000 + 2 * DAY + 12 * HOUR) (.period [(1, .d)]) :=
+  td_str_agree_any _ _ 1 (by decide)
+
+/-- mirror image of `compound_never_unbounded` for `t1 < t0`: a compound tenor of any signs and units gives the exact strictly
+decreasing range or raises `ValueError` — never an empty list, never an unbounded one -/
+theorem compound_never_unbounded_backward (p q : Int × Per) (rest : List (Int × Per)) (t0 t1 : Int) (h : t1 < t0) :
+    (∃ l, drange t0 t1 (.period (p :: q :: rest)) = .ok l ∧ IsRangeDown (dtBump (p :: q :: rest)) t0 t1 l ∧
+      l.head? = some t0 ∧ l.Pairwise (· > ·) ∧ ∀ x ∈ l, t1 ≤ x ∧ x ≤ t0) ∨
+    drange t0 t1 (.period (p :: q :: rest)) = .error .value := by
+  rw [compound_is_loopC p q rest t0 t1 (by omega)]
+  rcases loopC_backward (dtBump (p :: q :: rest)) t0 t1 h with hl | ⟨e, _⟩
+  · exact Or.inl hl
+  · exact Or.inr e
+
+/-! #### the ends of the datetime range as an EXPLICIT hypothesis (review t3 §C10 2.3)
+
+The model's instants are unbounded integers; python's `datetime` ends at `MAXUS` = 10000-01-01 (and starts at 0 = 0001-01-01).
+Every loop branch of the code computes ONE iterate beyond `t1` before it stops (`t = t + bump` / `dt_bump(t, bump)`), so within one
+bump of `datetime.max` / `datetime.min` the real code raises `OverflowError` where `td_forward`, `td_away`, `int_td_str_agree` … give
+a list / `ValueError`.  The range theorems describe the code exactly when every instant the loop constructs is representable;
+`loop_forward_representable` / `loop_backward_representable` state when that is: `0 ≤ t0` and `t1 + B < MAXUS` for a step that
+advances by at most `B` (mirror: `t0 < MAXUS`, `0 ≤ t1 - B`). -/
+
+theorem loop_forward_representable (step : Int → Int) (B : Int) (hstep : ∀ t, t < step t ∧ step t ≤ t + B) (t0 t1 : Int)
+    (h : t0 < t1) (h0 : 0 ≤ t0) (hb : t1 + B < Bump.MAXUS) :
+    ∃ l, loopBranch step t0 t1 = .ok l ∧ IsRangeUp step t0 t1 l ∧
+      ∀ i, i ≤ l.length → 0 ≤ iter step i t0 ∧ iter step i t0 < Bump.MAXUS := by
+  obtain ⟨l, e1, e2, _, _, _⟩ := loop_forward step (fun t => (hstep t).1) t0 t1 h
+  refine ⟨l, e1, e2, fun i hi => ?_⟩
+  have hge := iterate_inc step (fun t => (hstep t).1) i t0
+  refine ⟨by omega, ?_⟩
+  rcases Nat.lt_or_ge i l.length with hlt | hge'
+  · have := (e2.1 i hlt).2
+    have := (hstep t0).1; have := (hstep t0).2
+    omega
+  · have ei : i = l.length := by omega
+    cases i with
+    | zero => simp only [iter]; have := (hstep t0).1; have := (hstep t0).2; omega
+    | succ j =>
+      rw [iter_succ_outer]
+      have := (e2.1 j (by omega)).2
+      have := (hstep (iter step j t0)).2
+      omega
+
+theorem loop_backward_representable (step : Int → Int) (B : Int) (hstep : ∀ t, step t < t ∧ t - B ≤ step t) (t0 t1 : Int)
+    (h : t1 < t0) (h0 : t0 < Bump.MAXUS) (hb : 0 ≤ t1 - B) :
+    ∃ l, loopBranch step t0 t1 = .ok l ∧ IsRangeDown step t0 t1 l ∧
+      ∀ i, i ≤ l.length → 0 ≤ iter step i t0 ∧ iter step i t0 < Bump.MAXUS := by
+  obtain ⟨l, e1, e2, _, _, _⟩ := loop_backward step (fun t => (hstep t).1) t0 t1 h
+  refine ⟨l, e1, e2, fun i hi => ?_⟩
+  have hle := iterate_dec step (fun t => (hstep t).1) i t0
+  refine ⟨?_, by omega⟩
+  rcases Nat.lt_or_ge i l.length with hlt | hge'
+  · have := (e2.1 i hlt).2
+    have := (hstep t0).1; have := (hstep t0).2
+    omega
+  · have ei : i = l.length := by omega
+    cases i with
+    | zero => simp only [iter]; have := (hstep t0).1; have := (hstep t0).2; omega
+    | succ j =>
+      rw [iter_succ_outer]
+      have := (e2.1 j (by omega)).2
+      have := (hstep (iter step j t0)).2
+      omega
+
+/-- instance: a timedelta bump `us > 0` with `0 ≤ t0 < t1` and `t1 + us < MAXUS` — every instant the loop computes, the final
+overshooting one included, is a representable datetime (so the code returns the list of `td_forward` and cannot overflow) -/
+theorem td_forward_representable (t0 t1 us : Int) (hus : 0 < us) (h : t0 < t1) (h0 : 0 ≤ t0) (hb : t1 + us < Bump.MAXUS) :
+    ∃ l, drange t0 t1 (.td us) = .ok l ∧ ∀ i, i ≤ l.length → 0 ≤ t0 + us * i ∧ t0 + us * i < Bump.MAXUS := by
+  obtain ⟨l, e1, _, e3⟩ := loop_forward_representable (· + us) us (fun t => ⟨by omega, by omega⟩) t0 t1 h h0 hb
+  refine ⟨l, ?_, fun i hi => ?_⟩
+  · have : t0 ≠ t1 := by omega
+    simp [drange, this, e1]
+  · rw [← iter_add us i t0]; exact e3 i hi
+
+/-- the bound is needed: 9999-12-25 → 9999-12-31 in steps of one day passes `td_forward`, but the iterate after the last element
+is 10000-01-01 = `MAXUS`, which python cannot represent (`drange(dt(9999,12,25), dt(9999,12,31), timedelta(1))` raises
+OverflowError on the real code) -/
+example : (Bump.MAXUS - 7 * DAY) + DAY * 7 = Bump.MAXUS ∧
+    drange (Bump.MAXUS - 7 * DAY) (Bump.MAXUS - DAY) (.td DAY) = .ok [Bump.MAXUS - 7 * DAY, Bump.MAXUS - 6 * DAY,
+      Bump.MAXUS - 5 * DAY, Bump.MAXUS - 4 * DAY, Bump.MAXUS - 3 * DAY, Bump.MAXUS - 2 * DAY, Bump.MAXUS - DAY] := ⟨by decide, by rfl⟩
 
 end Pyg.Props.C10
